@@ -280,12 +280,7 @@ pub fn embedded(name: &str) -> Vec<Vec<u8>> {
         "id.event" => strs(ID_EVENT),
         "id.server_name" => strs(ID_SERVER_NAME),
         "id.mxc" => strs(ID_MXC),
-        "id.device_key" => strs(ID_DEVICE_KEY),
-        "id.signing_key_any" => strs(ID_SIGNING_KEY_ANY),
-        "id.server_signing_key" => strs(ID_SERVER_SIGNING_KEY),
-        "id.cross_signing_key" => strs(ID_CROSS_SIGNING_KEY),
-        "id.cross_or_device_key" => strs(ID_CROSS_OR_DEVICE_KEY),
-        "id.one_time_key" => strs(ID_ONE_TIME_KEY),
+        "id.key_id" => cat(&[ID_DEVICE_KEY, ID_SIGNING_KEY_ANY, ID_SERVER_SIGNING_KEY, ID_CROSS_SIGNING_KEY, ID_CROSS_OR_DEVICE_KEY, ID_ONE_TIME_KEY]),
         "id.room_version" => strs(ID_ROOM_VERSION),
         "id.client_secret" => strs(ID_CLIENT_SECRET),
         "id.session" => strs(ID_SESSION),
